@@ -760,6 +760,50 @@ def precision_lint(chk, repo, rule, paths, floor_funcs=5):
 
 
 
+def strided_view_lint(chk, repo, rule, paths, floor_views=0):
+    """A typed memoryview declared `T[::1]` accepts only C-contiguous buffers (Cython raises ValueError for anything else), so `&view[0]` followed by pointer arithmetic `ptr[i]`
+    walks the elements of the view.  Declared `T[:]` (or `T[:, :]`, ...) the same view accepts strided buffers -- `a[::2]`, a column of a 2-d array -- and `ptr[i]` then reads and writes
+    memory the view does not own: the array helper no longer agrees with the scalar call element by element, and writes land outside the caller's elements.  Every memoryview whose
+    address is taken must therefore be declared contiguous in its last dimension."""
+    import glob, os
+    nviews = 0
+    for pat in paths:
+        for path in sorted(glob.glob(os.path.join(repo.root, pat), recursive=True)):
+            rel = os.path.relpath(path, repo.root)
+            mod = repo.by_path(rel)
+            if getattr(mod, 'facts', None) is None:
+                continue
+            offenders = []
+            for fn in [x for x in ast.walk(mod.tree) if isinstance(x, ast.FunctionDef)]:
+                types = _c_types(mod, fn)
+                views = {}
+                for n_, t_ in types.items():
+                    t_ = str(t_)
+                    if '[' in t_ and ':' in t_:
+                        dims = [d_.replace(' ', '') for d_ in t_[t_.index('[') + 1:t_.rindex(']')].split(',')]
+                        views[n_] = (t_, dims)
+                if not views:
+                    continue
+                taken = set()
+                for x in ast.walk(fn):
+                    # `&view[...]` is rewritten to `__addr__ * view[...]`
+                    if isinstance(x, ast.BinOp) and isinstance(x.op, ast.Mult) and isinstance(x.left, ast.Name) and x.left.id == '__addr__':
+                        y = x.right
+                        while isinstance(y, ast.BinOp) and isinstance(y.op, ast.Mult) and isinstance(y.left, ast.Call) and getattr(y.left.func, 'id', '') == '__cast__':
+                            y = y.right
+                        if isinstance(y, ast.Subscript) and isinstance(y.value, ast.Name) and y.value.id in views:
+                            taken.add(y.value.id)
+                for n_ in sorted(taken):
+                    nviews += 1
+                    t_, dims = views[n_]
+                    if dims[-1] != '::1' and not (len(dims) > 1 and dims[0] == '::1'):
+                        offenders.append(f'{fn.name}: `{n_}` is declared {t_} (strided buffers accepted) and `&{n_}[..]` is handed on as a unit-stride pointer')
+            chk.ob(rule, f'{rel}: every memoryview whose address is taken is declared contiguous (`[::1]`)', not offenders, '; '.join(offenders[:3]), rel, key=f'{rule}|{rel}',
+                   method='declared C types of parameters and locals (Cython front-end) x address-of sites')
+    if nviews < floor_views:
+        raise AnalysisError(f'strided-view lint for {rule}: only {nviews} address-of sites on memoryviews found (expected at least {floor_views})')
+
+
 # ------------------------------------------------------------------------------------------------ who may write a registry
 _MUTATORS = ('append', 'extend', 'update', 'insert', 'add', 'setdefault', 'pop', 'popitem', 'clear', 'remove', 'sort', 'reverse', 'discard', '__setitem__', '__delitem__')
 
